@@ -83,6 +83,9 @@ struct SetAdapter {
       o.inlineState = false;
 #ifdef AMC_NONSTD_FEATURES
       o.capacity = (size_t)s.capacity();
+      o.data = s.data();
+      o.dataInside = inside(p, s.data());
+      o.elemSize = sizeof(T);
 #endif
     } else {
       // inline state: elements (if any) live inside the object
